@@ -19,12 +19,22 @@ struct PropDef {
 }
 
 fn props() -> Vec<PropDef> {
-    vec![PropDef {
-        id: "C01",
-        level: "model_checking",
-        run: props::c01::run,
-        replay: props::c01::replay,
-    }]
+    macro_rules! p {
+        ($id:expr, $lvl:expr, $m:ident) => {
+            PropDef {
+                id: $id,
+                level: $lvl,
+                run: props::$m::run,
+                replay: props::$m::replay,
+            }
+        };
+    }
+    vec![
+        p!("C01", "model_checking", c01),
+        p!("C02", "fault_enumeration", c02),
+        p!("C07", "fault_enumeration", c07),
+        p!("C10", "fault_enumeration", c10),
+    ]
 }
 
 fn find(id: &str) -> Option<PropDef> {
